@@ -51,7 +51,7 @@ def step (st : St) (op res : String) : St × List String :=
         -- the model's bitset is a list: pools this large are executed but not modelled
         (.none, ["br:new6.too-big-for-driver"])
       else
-      let wf := decide p.WF && (addr6 ((parseHex base).getD [])).isSome
+      let wf := decide p.WF && (addrOfBytes ((parseHex base).getD [])).isSome
       match A6.new p with
       | .ok a =>
         (.v6 a wf [], "br:new6.ok" :: (if res == "ok" then [] else [s!"DIVERGE {if wf then "dom" else "drift"} model=ok"]))
@@ -62,7 +62,7 @@ def step (st : St) (op res : String) : St × List String :=
   | ["alloc", ip, ones, bits], .v6 a wf out =>
     match parseHex ip, ones.toNat?, bits.toNat? with
     | some ipb, some ones, some bits =>
-      let h : Hint6 := ⟨addr6 ipb, ones, bits⟩
+      let h : Hint6 := ⟨addrOfBytes ipb, ones, bits⟩
       let dom := if wf then "dom" else "drift"
       match parseA6Res res with
       | none => (.none, [s!"DIVERGE {dom} unexpected-result"] ++ (if wf then [s!"FAIL C05 Allocate returned {res}"] else []))
@@ -89,9 +89,9 @@ def step (st : St) (op res : String) : St × List String :=
   | ["free", ip, ones, bits], .v6 a wf out =>
     match parseHex ip, ones.toNat?, bits.toNat? with
     | some ipb, some ones, some bits =>
-      match addr6 ipb with
+      match addrOfBytes ipb with
       | some x =>
-        let inDom := wf && bits == 128 && a.pool.page ≤ ones && ones ≤ 128 && !(isV4Mapped ((parseHex (addrHex (maskAddr x ones))).getD []))
+        let inDom := wf && bits == 128 && a.pool.page ≤ ones && ones ≤ 128
         let dom := if inDom then "dom" else "drift"
         let (a', r) := a.free x ones
         let m := fmtF6 r
